@@ -92,6 +92,10 @@ def cases(draw):
         for i in range(start, min(len(g['nodes']), start + draw(st.integers(2, 5)))):
             if g['nodes'][i]['type'] in ('or', 'and'):
                 g['nodes'][i]['is_viable'] = False
+    if draw(st.integers(0, 3)) == 0:
+        # explicit ids that do not follow the insertion order (as in a graph loaded from a file sorted by name)
+        n = len(g['nodes'])
+        g['ids'] = list(draw(st.permutations([3 * k + 1 for k in range(n)])))
     return {'graph': g, 'analyse': False}
 
 
